@@ -134,6 +134,91 @@ theorem C01_a64_exact_step (row : Row) (first : Bool) (regs : RegsA64) (mem : Me
     rw [e, this]
     simp [resOfRa, hra]
 
+theorem translateA64_of_undefined_ra {row : Row} {r : RuleA64} (h : row.ra = .undefined)
+    (ht : translateA64 row = some r) : ∃ k, r = .offsetSpIfFirstFrameOtherwiseStackEndsHere k := by
+  unfold translateA64 at ht
+  have hra : regRuleToCfaOffset row.ra = .none := by simp [regRuleToCfaOffset, h]
+  cases hc : row.cfa with
+  | expr => simp [hc] at ht
+  | exprRegOff _ _ => simp [hc] at ht
+  | regOff reg off =>
+    cases reg with
+    | ra => simp [hc] at ht
+    | other => simp [hc] at ht
+    | fp => simp [hc, hra] at ht
+    | sp =>
+      simp only [hc] at ht
+      cases hk : exactDivU16 off 16 with
+      | none => simp [hk] at ht
+      | some k =>
+        simp only [hk, hra] at ht
+        cases hf : regRuleToCfaOffset row.fp with
+        | err => simp [hf] at ht
+        | some f => simp [hf] at ht
+        | none =>
+          simp only [hf, h, if_true] at ht
+          injection ht with ht
+          exact ⟨k, ht.symm⟩
+
+/-- The aarch64 root, reached as a caller frame: a row declaring the return address undefined
+completes the walk, whether or not the row is compressed into a rule. (In the *first* frame
+framehop deliberately treats such a row as same-value - known finding F14.) -/
+theorem C01_a64_root_completes (row : Row) (regs : RegsA64) (mem : Mem)
+    (h : row.ra = .undefined) : stepRow archA64 row false regs mem = .ret .done regs := by
+  unfold stepRow
+  cases ht : archA64.translate row with
+  | none =>
+    have e : archA64.generic row false regs mem = .ok 0 regs := by
+      show genericA64 row false regs mem = _
+      unfold genericA64
+      rw [if_pos (by simp [h])]
+      rfl
+    simp only [e]
+    rfl
+  | some r =>
+    obtain ⟨k, hk⟩ := translateA64_of_undefined_ra h ht
+    subst hk
+    simp only []
+    show execA64 (.offsetSpIfFirstFrameOtherwiseStackEndsHere k) false regs mem = _
+    simp only [execA64, Bool.not_false, if_true]
+    rfl
+
+/-- A true call chain (aarch64): rows with the registers of each frame, innermost first; the
+root is reached as a caller frame. -/
+inductive ExactChainA64 (mem : Mem) : Bool → List Row → RegsA64 → List Nat → Prop where
+  | root (row : Row) (regs : RegsA64) (h : row.ra = .undefined) :
+      ExactChainA64 mem false [row] regs []
+  | step (first : Bool) (row : Row) (rows : List Row) (regs : RegsA64) (raRaw : Nat) (cfa : Int)
+      (fp' : Nat) (ras : List Nat) (hrow : row.WF) (hregs : regs.WF)
+      (hs : dwarfSpec row regs.sp regs.fp regs.lr mem = .step raRaw cfa fp')
+      (hcfa : 0 ≤ cfa ∧ cfa < 18446744073709551616) (hra : strip regs.mask raRaw ≠ 0)
+      (hcaller : first = false →
+        (regs.sp : Int) < cfa ∧ (∃ n, row.ra = .offset n) ∧ row.fp ≠ .undefined)
+      (hfp : (∃ off, row.cfa = .regOff .fp off) → fp' ≠ 0 ∧ regs.fp < fp' ∧ (regs.sp : Int) < cfa)
+      (tail : ExactChainA64 mem false rows (afterA64 regs raRaw cfa.toNat fp') ras) :
+      ExactChainA64 mem first (row :: rows) regs (strip regs.mask raRaw :: ras)
+
+def walkA64 (mem : Mem) : Bool → List Row → RegsA64 → List Res
+  | _, [], _ => []
+  | first, row :: rows, regs =>
+    match stepRow archA64 row first regs mem with
+    | .ret (.frame ra) regs' => .frame ra :: walkA64 mem false rows regs'
+    | .ret r _ => [r]
+    | .panic _ => []
+
+/-- **C01 (aarch64).** Walking a true call chain yields exactly its (stripped) return addresses,
+with the caller's registers after each step, and completes with `Ok(None)` at the root. -/
+theorem C01_a64_walk (mem : Mem) (first : Bool) (rows : List Row) (regs : RegsA64) (ras : List Nat)
+    (h : ExactChainA64 mem first rows regs ras) :
+    walkA64 mem first rows regs = ras.map .frame ++ [.done] := by
+  induction h with
+  | root row regs h =>
+    simp [walkA64, C01_a64_root_completes row regs mem h]
+  | step first row rows regs raRaw cfa fp' ras hrow hregs hs hcfa hra hcaller hfp tail ih =>
+    simp only [walkA64, C01_a64_exact_step row first regs mem raRaw cfa fp' hrow hregs hs hcfa hra
+      hcaller hfp, List.map_cons, List.cons_append]
+    rw [ih]
+
 /-- With any cache a history can have produced, the step is the same (C06). -/
 theorem C01_cache_state_is_irrelevant (A : Arch) (N : Nat) (kind : Nat → Bool) (c0 : Nat)
     (ops : List (HOp A)) (hd : (ops.map drawsOf).sum < U16)
@@ -151,6 +236,15 @@ example :
     let root : Row := { cfa := .regOff .sp 8, fp := .sameValue, ra := .undefined }
     let regs : RegsX64 := ⟨0x400100, fun i => if i = RSP then 0x1000 else 0⟩
     walkX64 mem true [leaf, root] regs = [.frame 0x401234, .done] := by
+  decide
+
+-- Non-vacuity (aarch64): a leaf interrupted in its body, called from the root.
+example :
+    let mem : Mem := fun _ => none
+    let leaf : Row := { cfa := .regOff .sp 0, fp := .sameValue, ra := .sameValue }
+    let root : Row := { cfa := .regOff .sp 16, fp := .sameValue, ra := .undefined }
+    let regs : RegsA64 := { mask := 0xffffffffffff, lr := 0x100234, sp := 0x7000, fp := 0x7100 }
+    walkA64 mem true [leaf, root] regs = [.frame 0x100234, .done] := by
   decide
 
 end FH
